@@ -3,13 +3,9 @@ CONSTANTS
   Attr <- Tree
   ModuleOf <- Mods
   ExtraLoads <- Extra
-  SkipForms <- DynSkips
-  Templates <- Tpl
-  PrevDocs <- NoPrev
-  MaxStmts = 6
-
-
-
-
+  SkipForms <- HistSkips
+  Templates <- TplHist
+  PrevDocs <- Prevs
+  MaxStmts = 3
 CONSTRAINT ExportAll
 CHECK_DEADLOCK FALSE
